@@ -37,8 +37,8 @@ var embPaths = []embPath{
 	{"/user/status/ID", "status-id"}, {"/embed/ID?start=30&autoplay=1#t", "embed-id-params"},
 }
 
-var embSchemes = []string{"https://", "http://", "//", "relative-on-list", "relative-off-list"}
-var embCarriers = []string{"iframe", "object-data", "object-param", "tw-iframe", "tw-bq"}
+var embSchemes = []string{"https://", "http://", "//", "relative-on-list", "relative-off-list", "no-scheme"}
+var embCarriers = []string{"iframe", "object-data", "object-param", "tw-iframe", "tw-bq", "tw-bq-nested"}
 
 type embCase struct {
 	H       embHost
@@ -67,8 +67,8 @@ func (e embCase) service() string {
 	switch e.Scheme {
 	case "relative-on-list":
 		return "youtube"
-	case "relative-off-list":
-		return ""
+	case "relative-off-list", "no-scheme":
+		return "" // a relative reference: the true host is the (unlisted) page host
 	}
 	return e.H.Service
 }
@@ -81,6 +81,9 @@ func (e embCase) src() (src string, pageURL string) {
 		return path, "https://www.youtube.com/watch/page.html"
 	case "relative-off-list":
 		return path, pageURL
+	case "no-scheme":
+		// host name written without scheme: a relative path whose first segment looks like a host
+		return e.H.Host + path, pageURL
 	}
 	return e.Scheme + e.H.Host + path, pageURL
 }
@@ -114,6 +117,9 @@ func (e embCase) element() string {
 		return fmt.Sprintf(`<object><param name="movie" value="%s"><param name="wmode" value="transparent"></object>`, src)
 	case "tw-iframe":
 		return fmt.Sprintf(`<iframe src="%s" data-tweet-id="TW%s"></iframe>`, src, e.ID)
+	case "tw-bq-nested":
+		// a tweet quote that carries foreign frames inside
+		return fmt.Sprintf(`<blockquote class="twitter-tweet"><p>hello world <iframe src="https://ads.example.net/frame/%s"></iframe></p><div><object data="https://ads.example.net/o.swf"><iframe src="/local/frame.html"></iframe></object></div>&mdash; someone <a href="%s">date</a></blockquote>`, e.ID, src)
 	default:
 		return fmt.Sprintf(`<blockquote class="twitter-tweet"><p>hello world</p>&mdash; someone <a href="https://example.org/profile">profile</a> <a href="%s">date</a></blockquote>`, src)
 	}
@@ -140,7 +146,7 @@ func genEmbedDoc(r *RNG) string {
 func init() {
 	register(&Prop{
 		ID: "C19",
-		Rule: "full grid every run: 28 hosts (allow-listed roots, their subdomains, suffix look-alikes youtube.com.evil.example, prefix look-alikes evilyoutube.com / xplayer.vimeo.com, vimeo.com itself, userinfo tricks youtube.com@evil.example, upper case, port, trailing dot) x 14 path/query shapes (/embed/ID, /embed/ID/, /v/ID&x=1, /v/ID?x=1, /video/ID, /ID, container only, root, service name only in path or query, /user/status/ID, parameters+fragment) x 5 source forms (https, http, scheme-relative, relative with the page on / off the allow list) x 5 carriers (iframe, object[data], object>param[name=movie], rendered twitter iframe with data-tweet-id, twitter blockquote with the tweet link as last anchor) = 9800 cases, each between two long paragraphs (quick) and additionally inside random articles (thorough). Oracle: a placeholder may exist only if the TRUE host (known by construction) is allow-listed; its data-type must be that service and data-id the id encoded in the URL (last path segment, resp. data-tweet-id); no bare <iframe> may survive. Non-trivial = every grid cell; distinct = distinct cells.",
+		Rule: "full grid every run: 28 hosts (allow-listed roots, their subdomains, suffix look-alikes youtube.com.evil.example, prefix look-alikes evilyoutube.com / xplayer.vimeo.com, vimeo.com itself, userinfo tricks youtube.com@evil.example, upper case, port, trailing dot) x 14 path/query shapes (/embed/ID, /embed/ID/, /v/ID&x=1, /v/ID?x=1, /video/ID, /ID, container only, root, service name only in path or query, /user/status/ID, parameters+fragment) x 6 source forms (https, http, scheme-relative, relative with the page on / off the allow list, host name without scheme = relative path) x 6 carriers (iframe, object[data], object>param[name=movie], rendered twitter iframe with data-tweet-id, twitter blockquote with the tweet link as last anchor, the same with foreign iframes/objects nested inside) = 14112 cases, each between two long paragraphs (quick) and additionally inside random articles (thorough). Oracle: a placeholder may exist only if the TRUE host (known by construction) is allow-listed; its data-type must be that service and data-id the id encoded in the URL (last path segment, resp. data-tweet-id); no bare <iframe> may survive. Non-trivial = every grid cell; distinct = distinct cells.",
 		Assumptions: []string{
 			"'only if': an allow-listed source that is not turned into a placeholder (port, case, unsupported carrier) is not a violation",
 			"the id 'taken from the URL' is the last non-empty path segment (not the container words embed/video), for rendered tweets the data-tweet-id attribute",
@@ -186,16 +192,19 @@ func runC19(c *Ctx, idx int) {
 		}
 		if isPlaceholder(n) {
 			phs = append(phs, n)
-			return false
+			return true
 		}
 		if n.Data == "iframe" {
-			bareIframe = true
+			// the only frame allowed is the recognised one: the direct child of its placeholder
+			if n.Parent == nil || !isPlaceholder(n.Parent) {
+				bareIframe = true
+			}
 		}
 		return true
 	})
 	svc := e.service()
 	if bareIframe {
-		c.Violation("bare-iframe:"+e.H.Class, fmt.Sprintf("an <iframe> survives in the distilled HTML outside a placeholder (source host %s)", e.H.Host), wit(map[string]any{"result_html": trunc(outer(cr.Res.Node), 2000)}))
+		c.Violation("bare-iframe:"+e.H.Class+":"+e.Carrier, fmt.Sprintf("an <iframe> that was not turned into a placeholder survives in the distilled HTML (source host %s, carrier %s)", e.H.Host, e.Carrier), wit(map[string]any{"result_html": trunc(outer(cr.Res.Node), 2000)}))
 		return
 	}
 	if len(phs) == 0 {
